@@ -52,8 +52,10 @@ def coq_ty(t):
         return "box T"
     if t == "A":
         return "ang T"
-    if t == "PTS":
+    if t == "PTS" or t == "MESH":
         return "list (vec T)"
+    if t == "P2":
+        return "arg2 T"
     if isinstance(t, tuple) and t[0] == "R":
         return "res (%s)" % coq_ty(t[1])
     if isinstance(t, tuple) and t[0] == "O":
@@ -92,12 +94,19 @@ SPECS = [
      {"varargs3": True}),
     (F_GEO, "triangle_area", "g_triangle_area", [("A", "V"), ("B", "V"), ("C", "V")], "S", {}),
     (F_GEO, "det_2x2", "g_det_2x2", [("A", "V"), ("B", "V")], "S", {}),
+    (F_GEO, "det_2x2", "g_det_2x2_any", [("A", "P2"), ("B", "P2")], R("S"), {}),
     (F_GEO, "triangle_area_2D", "g_triangle_area_2D", [("A", "V"), ("B", "V"), ("C", "V")], "S", {}),
     (F_GEO, "det_3x3", "g_det_3x3", [("A", "V"), ("B", "V"), ("C", "V")], "S", {"det3": True}),
     (F_GEO, "intersect_2lines2D", "g_intersect_2lines2D", [("p1", "V"), ("d1", "V"), ("p2", "V"), ("d2", "V")],
      O("V"), {}),
     (F_GEO, "circumcenter", "g_circumcenter", [("v1", "V"), ("v2", "V"), ("v3", "V")], R("V"), {}),
     (F_GEO, "project_to_plane", "g_project_to_plane", [("P", "V"), ("N", "V"), ("orig", "V")], "V", {}),
+    (F_GEO, "quad_area", "g_quad_area", [("A", "V"), ("B", "V"), ("C", "V"), ("D", "V")], "S", {}),
+    (F_GEO, "aspect_ratio", "g_aspect_ratio", [("A", "V"), ("B", "V"), ("C", "V")], R("S"), {}),
+    (F_GEO, "distance_to_segment2D", "g_distance_to_segment2D", [("P", "V"), ("A", "V"), ("B", "V")], R("S"), {}),
+    (F_VEC, "Vec.normalize", "vec_normalize", [("self", "V"), ("which", "K")], "V", {"fall_self": True}),
+    (F_VEC, "Vec.outer", "vec_outer", [("self", "V"), ("other", "V")], "PTS", {}),
+    (F_MATH, "solve_quadratic", "m_solve_quadratic", [("A", "S"), ("B", "S"), ("C", "S")], "V", {}),
     (F_ROT, "rotate_2d", "rot_rotate_2d", [("v", "V"), ("angle", "S")], "V", {}),
     (F_ROT, "rotate_around_axis", "rot_rotate_around_axis", [("inp", "V"), ("_axis", "V"), ("angle", "S")], R("V"), {}),
     (F_MATH, "angle_diff", "m_angle_diff", [("a", "S"), ("b", "S")], "S", {}),
@@ -114,6 +123,8 @@ SPECS = [
     (F_AABB, "AABB.project", "aabb_project", [("self", "BOX"), ("pt", "V")], R("V"), {}),
     (F_AABB, "AABB.distance", "aabb_distance", [("self", "BOX"), ("pt", "V"), ("which", "K")], R("S"), {}),
     (F_AABB, "AABB.is_empty", "aabb_is_empty", [("self", "BOX")], "B", {}),
+    (F_AABB, "AABB.unit_cube", "aabb_unit_cube", [("dim", "N"), ("centered", "B")], R("BOX"), {"skip_self": True}),
+    (F_AABB, "AABB.of_mesh", "aabb_of_mesh", [("mesh", "MESH"), ("padding", "S")], R("BOX"), {"skip_self": True}),
     (F_AABB, "AABB.of_points", "aabb_of_points", [("points", "PTS"), ("padding", "S")], R("BOX"), {"skip_self": True}),
 ]
 
@@ -217,6 +228,11 @@ class FnCompiler:
             self.fail(e, "tuple of non-vectors")
         if isinstance(e, ast.ListComp):
             return self.listcomp(e, env)
+        if isinstance(e, ast.List):
+            vals = [self.ex(x, env) for x in e.elts]
+            if all(v.ty == "S" for v in vals):
+                return Val("[" + "; ".join(v.coq for v in vals) + "]", "V")
+            self.fail(e, "list of non-scalars")
         self.fail(e, "unsupported expression")
 
     def boolean(self, e, env):
@@ -310,7 +326,12 @@ class FnCompiler:
             return env[d]
         if d in ("math.pi", "np.pi"):
             return Val("(opi o)", "S")
+        if d is not None and d.endswith(".vertices._data") and d.count(".") == 2 and d.split(".")[0] in env \
+                and env[d.split(".")[0]].ty == "MESH":
+            return Val(env[d.split(".")[0]].coq, "PTS")      # the mesh is read through its vertex container only
         base = self.ex(e.value, env)
+        if base.ty == "P2" and e.attr in ("real", "imag"):
+            return Val("(a2_%s %s)" % ("re" if e.attr == "real" else "im", base.coq), R("S"))
         if base.ty == "V":
             if e.attr in ("x", "y", "z"):
                 return Val("(vnth o %s %d)" % (base.coq, "xyz".index(e.attr)), "S")
@@ -334,6 +355,8 @@ class FnCompiler:
             self.fail(e, "unsupported .shape[...]")
         base = self.ex(e.value, env)
         sl = e.slice
+        if base.ty == "P2" and isinstance(sl, ast.Constant) and isinstance(sl.value, int) and sl.value >= 0:
+            return Val("(a2_nth o %s %d)" % (base.coq, sl.value), R("S"))
         if base.ty == "V":
             if isinstance(sl, ast.Constant) and isinstance(sl.value, int) and sl.value >= 0:
                 return Val("(vnth o %s %d)" % (base.coq, sl.value), "S")
@@ -433,6 +456,24 @@ class FnCompiler:
             if a.ty == "N" and b.ty == "S":
                 return Val("(vfull %s %s)" % (a.coq, b.coq), "V")
             self.fail(e, "np.full of %r, %r" % (a.ty, b.ty))
+        if d in ("np.zeros", "np.ones"):
+            if len(args) == 1 and set(kw) <= {"dtype"} and ("dtype" not in kw or T.dotted(kw["dtype"]) == "float"):
+                a = A(0)
+                if a.ty == "N":
+                    return Val("(vfull %s (oZ o (%d)%%Z))" % (a.coq, 0 if d == "np.zeros" else 1), "V")
+            self.fail(e, "unsupported %s" % d)
+        if d == "np.outer":
+            need(2)
+            a, b = A(0), A(1)
+            if a.ty == "V" and b.ty == "V":
+                return Val("(vouter o %s %s)" % (a.coq, b.coq), "PTS")
+            self.fail(e, "np.outer of %r, %r" % (a.ty, b.ty))
+        if d in ("sqrt", "math.sqrt"):
+            need(1)
+            a = A(0)
+            if a.ty == "S":
+                return Val("(osqrt o %s)" % a.coq, "S")
+            self.fail(e, "sqrt of a non-scalar")
         if d == "np.array":
             # np.array(x) / np.array(x, dtype=float): a copy with the same values
             if len(args) == 1 and set(kw) <= {"dtype"}:
@@ -461,6 +502,8 @@ class FnCompiler:
             need(2)
             if isinstance(args[0], ast.Name) and args[0].id in env and T.dotted(args[1]) in ("float", "complex"):
                 ty = env[args[0].id].ty
+                if ty == "P2" and T.dotted(args[1]) == "complex":
+                    return Val("(is_cplx %s)" % env[args[0].id].coq, "B")
                 if T.dotted(args[1]) == "float":
                     return Val("true" if ty == "S" else "false", "B", extra=("static", ty == "S"))
                 return Val("false", "B", extra=("static", False))     # complex arguments are outside the model
@@ -569,7 +612,7 @@ class FnCompiler:
                 self.fail(node, "an optional value dereferenced in a function declared total")
             env2[name] = Val(cv, v.ty[1], extra="deref-only")
             return "bind_opt %s (fun %s =>\n  %s)" % (v.coq, cv, rest_fn(env2))
-        if v.ty in ("S", "V", "B", "N", "BOX", "A", "PTS", "BL", "K"):
+        if v.ty in ("S", "V", "B", "N", "BOX", "A", "PTS", "BL", "K", "P2"):
             env2[name] = Val(cv, v.ty)
             return "let %s := %s in\n  %s" % (cv, v.coq, rest_fn(env2))
         if v.ty == "MAT":
@@ -588,6 +631,8 @@ class FnCompiler:
         if not stmts:
             if "fall" in self.opt:
                 return self.opt["fall"]
+            if self.opt.get("fall_self"):
+                return env["self"].coq
             if self.opt.get("mutator"):
                 return "Ret (%s, %s)" % (env["self._p1"].coq, env["self._p2"].coq)
             if self.opt.get("ctor"):
@@ -849,7 +894,10 @@ class FnCompiler:
                 env2 = dict(env)
                 env2[tgt.id] = Val(cv, v.ty)
                 return "let %s := (if %s then %s else %s) in\n  %s" % (cv, cond.coq, v.coq, old.coq, self.block(rest, env2))
-        self.fail(s, "unsupported if-statement shape")
+        # general case: neither branch is known to return -> the continuation is compiled once per branch
+        a = self.block(list(s.body) + rest, env)
+        b = self.block(list(s.orelse) + rest, env)
+        return "if %s then %s else\n  %s" % (cond.coq, a, b)
 
     def terminates(self, stmts):
         if not stmts:
